@@ -19,8 +19,8 @@ cFosSet == FosSet
 
 
 Case(b, pol, fos) ==
-  LET ideal == ObsTop(Merge({}, pol, fos, a, b))
-      alts  == {[devs |-> DS, out |-> ObsTop(Merge(DS, pol, fos, a, b))] : DS \in DevSets}
+  LET ideal == ObsTopN(Merge({}, pol, fos, a, b))
+      alts  == {[devs |-> DS, out |-> ObsTopN(Merge(DS, pol, fos, a, b))] : DS \in DevSets}
       diff  == {x \in alts : x.out # ideal}
   IN [a |-> a, b |-> b, pol |-> pol, fos |-> fos,
       exp |-> [ideal |-> ideal, alts |-> SetToSeq(diff)]]
@@ -38,5 +38,7 @@ FosNamed  == FosOf(FP_Named)
 FosPairs  == {<<[path |-> <<NF("a")>>, pol |-> p1], [path |-> <<NF("a"), NF("b")>>, pol |-> p2]>> : p1, p2 \in FPols}
              \cup {<<[path |-> <<NF("b")>>, pol |-> p1], [path |-> <<NF("b")>>, pol |-> p2]>> : p1, p2 \in FPols}
 FosAll    == FosSingle \cup FosPairs
+FosIdx    == FosOf({<<NF("a"), IX(1)>>, <<NF("a"), IX(0)>>, <<NF("a"), IX(1), IX(0)>>})
+             \cup {<<[path |-> <<NF("a"), IX(1)>>, pol |-> p1], [path |-> <<NF("a"), NF("b")>>, pol |-> p2]>> : p1, p2 \in FPols}
 PolsTwo   == {"default", "append"}
 ==========================================================================
